@@ -44,6 +44,32 @@ type Ctx struct {
 	MaxG      int
 	Last      *simrt.Result
 	Overrun   bool
+
+	// Known is set by the worker: does a violation of this class and shape match a recorded known finding?
+	Known    func(class string, shape map[string]interface{}) bool
+	deferred *Verdict
+}
+
+// Report is called for a violation found in the middle of a sweep (crash positions, fault positions). It returns
+// true when the run should stop and return v. A violation that matches a recorded known finding is kept and the
+// sweep goes on, so that a known finding does not hide a different violation later in the same case.
+func (c *Ctx) Report(v Verdict) bool {
+	if c.Known != nil && c.Known(v.Class, v.Shape) {
+		if c.deferred == nil {
+			c.deferred = &v
+		}
+		c.Counters["obs.known_finding_passed_over"]++
+		return false
+	}
+	return true
+}
+
+// Finish is the verdict of a sweep that met nothing but known findings, if any.
+func (c *Ctx) Finish() Verdict {
+	if c.deferred != nil {
+		return *c.deferred
+	}
+	return Pass()
 }
 
 func NewCtx(tier string, faultFree bool, g *gen.G, tapes [][]uint32) *Ctx {
